@@ -181,6 +181,21 @@ def checkEval2 (op : String) (args res : List String) : Verdict :=
           | none => .skip "cmp out of fuel"
           | some l => if l.all id then .ok tag else .viol tag "a returned root is not the corresponding exact root"
     | _, _, _, _ => .skip "parse"
+  | "fsmem", [fss, vs], [r] =>
+    -- lp_feasibility_set_contains on a returned set: membership by the exact comparison with the end points
+    match pVSet? fss, pVal? vs with
+    | some S, some v =>
+      let inI : (Val × Bool × Val × Bool) → Option Bool := fun i =>
+        match Val.cmp i.1 v, Val.cmp v i.2.2.1 with
+        | some c1, some c2 => some ((c1 < 0 || (c1 == 0 && !i.2.1)) && (c2 < 0 || (c2 == 0 && !i.2.2.2)))
+        | _, _ => none
+      match S.mapM inI with
+      | none => .skip "comparison out of fuel"
+      | some l =>
+        let want := l.any id
+        if r = (if want then "1" else "0") then .ok s!"ev/fsmem/{S.length}/{if want then "in" else "out"}"
+        else .viol "ev/fsmem" s!"lp_feasibility_set_contains answered {r} for a value that is {if want then "" else "not "}in the set"
+    | _, _ => .skip "parse"
   | "infeas", [_cs, fss], [rss] =>
     -- poly::infeasible_regions(p, m, cond) must be the complement of the feasible set just validated (same line pair)
     match pVSet? fss, pVSet? rss with
